@@ -601,21 +601,20 @@ __strfdtdur(
 
 			/* time specs */
 		case DT_SPFL_N_TSTD:
-			if (UNLIKELY(spec.tai)) {
-				pre.S += pre.rS;
-			}
-			bp += ltostr(bp, eo - bp, pre.S, -1, DT_SPPAD_NONE);
+			/* real-life seconds include the leap seconds, don't
+			 * touch PRE, the spec may occur more than once */
+			bp += ltostr(bp, eo - bp,
+				     pre.S + (spec.tai ? pre.rS : 0),
+				     -1, DT_SPPAD_NONE);
 			if (bp < eo) {
 				*bp++ = 's';
 			}
 			break;
 
 		case DT_SPFL_N_SEC:
-			if (UNLIKELY(spec.tai)) {
-				pre.S += pre.rS;
-			}
-
-			bp += ltostr(bp, eo - bp, pre.S, 2, spec.pad);
+			bp += ltostr(bp, eo - bp,
+				     pre.S + (spec.tai ? pre.rS : 0),
+				     2, spec.pad);
 			break;
 
 		case DT_SPFL_N_MIN:
